@@ -260,11 +260,12 @@ pub fn run(args: &Args, rep: &mut Report) {
     let reduced = args.extra.iter().any(|e| e == "reduced");
     // exhaustive part: every (month, day) of one leap and one common year, singly and cumulatively
     if args.worker == 0 {
-        for y in [2024, 2023, -4, 1900] {
+        let years: &[i32] = if reduced { &[2024] } else { &[2024, 2023, -4, 1900] };
+        for &y in years {
             let mut cumulative = Vec::new();
             let mut day = d(y, 1, 1);
             while day.year() == y {
-                if !reduced || day.day() == 1 || day.day() >= 28 {
+                if !reduced || (day.day() == 31 && day.month() % 5 == 0) || (day.day() == 1 && day.month() == 1) {
                     run_history(rep, &[day], &[], 1);
                     rep.count("single_date_calendars");
                     rep.count("distinct_enumerated");
@@ -280,7 +281,7 @@ pub fn run(args: &Args, rep: &mut Report) {
             }
         }
     }
-    let n = if reduced { args.cases(40, 300) } else { args.cases(600_000, 12_000_000) };
+    let n = if reduced { args.cases(16, 160) } else { args.cases(600_000, 12_000_000) };
     for k in 0..n {
         let mut r = Rng::new(args.seed, args.worker, k);
         let base = *r.pick(&[2000, 2024, 1900, 9999, 1, -1, 0, -400, 2100]);
